@@ -67,6 +67,10 @@ def gen_base(rng, tier, index):
             n = call["n"] = 1
         elif n < 2:
             n = call["n"] = 2 + index % 5
+    if index % 8 == 7 and n:
+        # big results / big data items (more than a pipe buffer of 64 KiB each)
+        n = call["n"] = min(n, 8)
+        call["result_size" if index % 16 == 7 else "item_size"] = rng.choice([70_000, 200_000])
     if call["list_items"] and index % 2 == 0:
         chunk = call["chunk"] = 1           # the default chunk size with items that are lists
     nchunks = max(1, -(-n // chunk))
